@@ -23,6 +23,7 @@ RULE = (
     '[0,1) and at least 5 points collected; distinct = SHA-1 of (group, lattice, site, positions).'
 )
 RULE += ' Added in rounds 6-9: positions bitwise on site centres / images; trajectory cells expanded / compressed by about 1 % or reoriented.'
+RULE += ' Round 15: half of the structures handed to from_structure have a rigidly rotated lattice matrix; the analyzer keeps the cell of the structure.'
 RULE += ' Round 14: 10 (200) ideal-lattice inputs (nodes of a 1 A grid, site on a node, radius 1 / 2 / 3 A) whose distances are exact; pairs exactly at the radius are not below it.'
 ASSUMPTIONS = [
     'pymatgen space-group operation tables and SymmOp.operate / inverse are trusted',
@@ -217,8 +218,20 @@ def run_unit(unit, rng, ctx):
         use_spglib = unit['r'] % 2 == 1 and n > 1
         if use_spglib:
             try:
-                st = Structure.from_spacegroup(sg.symbol, lat, ['Li'] * n_sites, sites_frac)
+                # structure files do not all store the cell in the conventional orientation: half of the structures are
+                # handed over with a rigidly rotated lattice matrix (same fractional coordinates, same symmetry)
+                lat_in = lat
+                if rng.integers(2):
+                    from pymatgen.core import Lattice as _Lat
+
+                    lat_in = _Lat(np.asarray(lat.matrix) @ geom.random_rotation(rng).T)
+                    ctx.count('structures_given_in_a_rotated_cell')
+                st = Structure.from_spacegroup(sg.symbol, lat_in, ['Li'] * n_sites, sites_frac)
                 analyzer = ShapeAnalyzer.from_structure(st)
+                # the analyzer works in the cell of the structure it was built from (the sites it reports as origins of
+                # the shapes are Cartesian positions in that cell)
+                ctx.check(np.allclose(np.asarray(analyzer.lattice.matrix), np.asarray(st.lattice.matrix), rtol=0, atol=1e-9), f'{sg.symbol} (#{n}): ShapeAnalyzer.from_structure works in another cell than the structure it was given: {np.asarray(analyzer.lattice.matrix).round(4).tolist()} vs {np.asarray(st.lattice.matrix).round(4).tolist()}', {'structure_lattice': np.asarray(st.lattice.matrix)})
+                lat = lat_in
             except Exception:  # noqa: BLE001
                 use_spglib = False
         if not use_spglib:
